@@ -21,6 +21,7 @@ define_language! {
         Lam2(Bind<Bind<AppliedId>>) = "lam2",
         Sym(Symbol),
         T(AppliedId, AppliedId, AppliedId) = "t",
+        H(AppliedId, Bind<AppliedId>) = "h",
     }
 }
 
@@ -35,6 +36,7 @@ define_language! {
         Let(Bind<AppliedId>, AppliedId) = "let",
         // uninterpreted constant c is stored as -(c+1), so that its printed form is not a Num
         Cst(i32),
+        Sumr(AppliedId, Bind<AppliedId>) = "sumr",
     }
 }
 
@@ -179,6 +181,7 @@ impl SimLang for LS {
             "u" => LS::U(nul()),
             "b" => LS::B(nul(), nul()),
             "t" => LS::T(nul(), nul(), nul()),
+            "h" => LS::H(nul(), Bind { slot: nm.slot(t.kids[1].binders[0]), elem: nul() }),
             "g" => LS::G(s(0), nul()),
             "lam" => LS::Lam(Bind { slot: nm.slot(t.kids[0].binders[0]), elem: nul() }),
             "let" => LS::Let(Bind { slot: nm.slot(t.kids[0].binders[0]), elem: nul() }, nul()),
@@ -202,6 +205,7 @@ impl SimLang for LS {
             LS::U(_) => ("u", 0, vec![], vec![vec![]]),
             LS::B(_, _) => ("b", 0, vec![], vec![vec![], vec![]]),
             LS::T(_, _, _) => ("t", 0, vec![], vec![vec![], vec![], vec![]]),
+            LS::H(_, b) => ("h", 0, vec![], vec![vec![], vec![b.slot]]),
             LS::G(s, _) => ("g", 0, vec![*s], vec![vec![]]),
             LS::Lam(b) => ("lam", 0, vec![], vec![vec![b.slot]]),
             LS::Let(b, _) => ("let", 0, vec![], vec![vec![b.slot], vec![]]),
@@ -221,6 +225,7 @@ impl SimLang for LA {
             "mul" => LA::Mul(nul(), nul()),
             "neg" => LA::Neg(nul()),
             "sum" => LA::Sum(Bind { slot: nm.slot(t.kids[0].binders[0]), elem: nul() }),
+            "sumr" => LA::Sumr(nul(), Bind { slot: nm.slot(t.kids[1].binders[0]), elem: nul() }),
             "let" => LA::Let(Bind { slot: nm.slot(t.kids[0].binders[0]), elem: nul() }, nul()),
             o => panic!("op {o} not in LA"),
         }
@@ -234,6 +239,7 @@ impl SimLang for LA {
             LA::Mul(_, _) => ("mul", 0, vec![], vec![vec![], vec![]]),
             LA::Neg(_) => ("neg", 0, vec![], vec![vec![]]),
             LA::Sum(b) => ("sum", 0, vec![], vec![vec![b.slot]]),
+            LA::Sumr(_, b) => ("sumr", 0, vec![], vec![vec![], vec![b.slot]]),
             LA::Let(b, _) => ("let", 0, vec![], vec![vec![b.slot], vec![]]),
         }
     }
